@@ -42,10 +42,13 @@ def strategy(tier):
             c["spread"] = None               # create_loss only forwards a scalar sigma
         m = c["model"]
         names = ir.state_names(m)
-        k = draw(st.integers(1, min(2, len(m["params"]))))
+        k = draw(st.integers(1, min(3, len(m["params"]))))
         inferred = list(draw(st.permutations(m["params"])))[:k]
-        if draw(st.integers(0, 3)) == 0:
-            inferred.insert(draw(st.integers(0, len(inferred))), draw(st.sampled_from(names)))
+        # inferred initial states may stand anywhere in the user's list (before, between or after the rate parameters):
+        # the mapping user order -> loss order is then a general permutation (3-cycles included), not just a swap
+        n_st = draw(st.sampled_from([0, 0, 0, 1, 1, 1, 2])) if k + 1 <= 4 else 0
+        for nm in list(draw(st.permutations(names)))[:min(n_st, 4 - k)]:
+            inferred.insert(draw(st.integers(0, len(inferred))), nm)
         priors = []
         for q in inferred:
             v = c["setup"]["theta"][m["params"].index(q)] if q in m["params"] else c["setup"]["x0"][names.index(q)]
